@@ -1,6 +1,6 @@
 //! 6LoWPAN: IPHC, NHC extension header, NHC UDP, fragment header
 use super::alpha::*;
-use super::{caps, Rt};
+use super::{Ck, Proto, Rt};
 use crate::core::Tier;
 use smoltcp::wire::*;
 
@@ -392,12 +392,18 @@ impl Rt for NhcExt {
 // -------------------------------------------------------------------------------- NHC UDP
 /// Payload outside the Repr as for UDP: value = (repr, payload), declared length =
 /// `header_len()` + payload.
+/// no public way to fill the NHC checksum afterwards: the `RxDevice` mode is left out
+const NHC_MODES: [Ck; 5] = [Ck::Default, Ck::None, Ck::Tx, Ck::DefaultThenNone, Ck::RxThenTx];
 pub struct NhcUdp;
 impl Rt for NhcUdp {
     const NAME: &'static str = "SixlowpanUdpNhcRepr";
     type R<'x> = (SixlowpanUdpNhcRepr, &'x [u8]);
-    type Ctx = (Ipv6Address, Ipv6Address);
-    fn chunk(tier: Tier, _i: usize) -> Vec<(Self::R<'static>, Self::Ctx)> {
+    type Ctx = (Ipv6Address, Ipv6Address, Ck);
+    fn nchunks(_tier: Tier) -> usize {
+        NHC_MODES.len()
+    }
+    fn chunk(tier: Tier, i: usize) -> Vec<(Self::R<'static>, Self::Ctx)> {
+        let m = NHC_MODES[i];
         // three classes: not compressible; 0xf0xx (8-bit form); 0xf0bx (4-bit form)
         let ports = [80u16, 0xf0b1, 0xf000, 0xf0bf, 0xf0ff, 1, 65535, 0xf0b0, 0xf0af, 0xf0c0, 0xefff, 0xf100];
         let a = v6s();
@@ -406,7 +412,7 @@ impl Rt for NhcUdp {
             for sp in pick(tier, &ports, 5) {
                 for dp in pick(tier, &ports, 5) {
                     for l in pick(tier, &[0usize, 1, 100, 2, 3], 3) {
-                        v.push(((SixlowpanUdpNhcRepr(UdpRepr { src_port: sp, dst_port: dp }), pat(l)), c));
+                        v.push(((SixlowpanUdpNhcRepr(UdpRepr { src_port: sp, dst_port: dp }), pat(l)), (c.0, c.1, m)));
                     }
                 }
             }
@@ -418,14 +424,28 @@ impl Rt for NhcUdp {
     }
     fn emit(r: &Self::R<'_>, c: &Self::Ctx, buf: &mut [u8]) {
         let pl = r.1;
-        r.0.emit(&mut SixlowpanUdpNhcPacket::new_unchecked(buf), &c.0, &c.1, pl.len(), |p| p.copy_from_slice(pl), &caps(true));
+        r.0.emit(&mut SixlowpanUdpNhcPacket::new_unchecked(buf), &c.0, &c.1, pl.len(), |p| p.copy_from_slice(pl), &c.2.emit_caps(Proto::Udp));
     }
     fn parse(b: &[u8], c: &Self::Ctx, s: bool, k: &mut dyn FnMut(Option<&Self::R<'_>>)) {
-        let r = SixlowpanUdpNhcPacket::new_checked(b).ok().and_then(|p| SixlowpanUdpNhcRepr::parse(&p, &c.0, &c.1, &caps(s)).ok().map(|r| (r, p.payload())));
+        let r = SixlowpanUdpNhcPacket::new_checked(b).ok().and_then(|p| SixlowpanUdpNhcRepr::parse(&p, &c.0, &c.1, &c.2.parse_caps(Proto::Udp, s)).ok().map(|r| (r, p.payload())));
         k(r.as_ref())
     }
     fn same(a: &Self::R<'_>, b: &Self::R<'_>, _: &Self::Ctx) -> bool {
         a.0 == b.0 && a.1 == b.1
+    }
+    fn base_ctx(c: &Self::Ctx) -> Option<Self::Ctx> {
+        (c.2 != Ck::Default).then_some((c.0, c.1, Ck::Default))
+    }
+    fn ctx_tag(c: &Self::Ctx) -> String {
+        c.2.name().into()
+    }
+    fn tx_off(c: &Self::Ctx) -> bool {
+        c.2.tx_off()
+    }
+    fn cksum(r: &Self::R<'_>) -> Option<std::ops::Range<usize>> {
+        // in-line checksum: the last two header octets
+        let h = r.0.header_len();
+        Some(h - 2..h)
     }
     fn tag(r: &Self::R<'_>) -> String {
         let class = |p: u16| match p {
@@ -458,7 +478,7 @@ impl Rt for NhcUdp {
         }
     }
     fn domain_doc() -> &'static str {
-        "(repr, payload): src_port x dst_port over {1, 80, 65535, 0xefff, 0xf100 (in-line), 0xf000, 0xf0af, 0xf0c0, 0xf0ff (8-bit form), 0xf0b0, 0xf0b1, 0xf0bf (4-bit form)} = all 3x3 port-class pairs with boundary values x payload length {0,1,2,3,100} x 2 pseudo-header address pairs"
+        "(repr, payload): src_port x dst_port over {1, 80, 65535, 0xefff, 0xf100 (in-line), 0xf000, 0xf0af, 0xf0c0, 0xf0ff (8-bit form), 0xf0b0, 0xf0b1, 0xf0bf (4-bit form)} = all 3x3 port-class pairs with boundary values x payload length {0,1,2,3,100} x 2 pseudo-header address pairs x UDP checksum capabilities {default; None; Tx; emit default / parse None; emit Rx / parse Tx} (no Rx-with-device mode: nothing public fills the NHC checksum afterwards)"
     }
 }
 
